@@ -1,5 +1,6 @@
 import CstModel.Props.C11
 import CstModel.Props.Gen
+import CstModel.Props.GenToken
 open Cst.C11
 #print axioms tokenText_eq_resolve
 #print axioms resolve_built
@@ -13,3 +14,6 @@ open Cst.C11
 #print axioms Cst.Gen.tok_text_eq
 #print axioms Cst.Gen.tok_resolve_text
 #print axioms Cst.Gen.tok_resolve_text_model
+#print axioms Cst.Gen.gt_text
+#print axioms Cst.Gen.rt_text
+#print axioms Cst.Gen.tok_static_text_key
